@@ -867,6 +867,49 @@ mod xen_part {
                 out::eval(1);
             }
         }
+        // guest base + size against the end of the guest address space, for EVERY mapping type (the
+        // type may treat bits of the address specially; the guest-region rule does not): the region
+        // object is built first (on demand where the device would need a real reference), then
+        // placed at a base around 2^64 - size
+        for (tname, w, with_file) in [("unix-anon", 0u32, false), ("unix-file", 0, true), ("foreign", 0x1, true), ("grant-on-demand", 0x2 | 0x8, true), ("grant-advance", 0x2, true)] {
+            for size in [4096usize, 8192, 4097] {
+                for d in [-8192i128, -4096, -1, 0, 1, 2, 4096] {
+                    let base = (1i128 << 64) - size as i128 + d;
+                    if base < 0 || base > u64::MAX as i128 {
+                        continue;
+                    }
+                    // the range itself is described at a harmless guest address (the emulator keys
+                    // its bookkeeping on it); the GUEST REGION is then created at `base`
+                    let fo = if with_file { Some(emu.file_offset(0)) } else { None };
+                    emu.clear();
+                    let reg = match guarded(|| MmapRegion::<()>::from_range(MmapRange::new(size, fo, GuestAddress(0x40000), w, 3))) {
+                        Ok(Ok(r)) => r,
+                        _ => continue,
+                    };
+                    let got = guarded(|| GuestRegionMmap::new(reg, GuestAddress(base as u64)));
+                    match got {
+                        Err(p) => v(&format!("xen/panic/guest-region-new/{}", panic_sig(&p)), jobj! {"type" => tname, "base" => base as u64, "size" => size}),
+                        Ok(res) => {
+                            if d > 0 && res.is_ok() {
+                                v("xen/guest-base-plus-size-beyond-address-space-accepted", jobj! {"type" => tname, "base" => J::S(format!("{:#x}", base as u64)), "size" => size});
+                            }
+                            if d < 0 && res.is_err() {
+                                v("xen/safe-request-refused/guest-base", jobj! {"type" => tname, "base" => J::S(format!("{:#x}", base as u64)), "size" => size});
+                            }
+                            if let Ok(g) = &res {
+                                use vm_memory::GuestMemoryRegion;
+                                if g.start_addr().0 != base as u64 || g.len() != size as u64 || (d < 0 && g.last_addr().0 != (base as u64).wrapping_add(size as u64 - 1)) {
+                                    v("xen/guest-region-attributes", jobj! {"type" => tname, "start" => g.start_addr().0, "len" => g.len()});
+                                }
+                            }
+                        }
+                    }
+                    out::key(&format!("xen|guest-base|{}|{}", tname, if d > 0 { "beyond" } else if d == 0 { "exact" } else { "below" }), true);
+                    out::eval(1);
+                    n += 1;
+                }
+            }
+        }
         let _ = MmapXenFlags::UNIX;
         out::count("xen_constructions", n as i128);
         drop(emu);
